@@ -46,7 +46,8 @@ Back(e, sol) ==
        [] e.what = "ComputationTime" ->
             IF e.ct = Same(rb.ct, sol.ct, "exact") THEN "" ELSE "C14.ComputationTime"
        [] e.what = "ProcessorName" ->
-            IF e.proc = Same(rb.proc, sol.proc, "equal") THEN "" ELSE "C14.ProcessorName"
+            LET x == ProcExpect(rb.proc, sol.proc) IN       \* EITHER band: any projection is accepted
+            IF (x = "EITHER" /\ e.proc \in {"None", "equal", "differs"}) \/ e.proc = x THEN "" ELSE "C14.ProcessorName"
        [] e.what = "Date" ->
             IF e.date = Same(rb.date, sol.date, "equal") THEN "" ELSE "C14.Date"
        [] OTHER -> "machinery/unknown-item"
